@@ -39,7 +39,7 @@ CHECKS = {
         text="Partial: for derive-generated sync blocks chunk-independence holds by construction, checked on the generated MIR "
              "of every in-crate user and a generated family (lock-step iteration from 0, take(n), one process call per sample, "
              "no state written by work()). For hand-written blocks the bounded-copy rule and rate consistency (consume(a) with "
-             "produce(a/c) needs a multiple of c), written-before-committed, counted consume, moved-out state restored, advanced copies stored back, fills committed, no per-call limit/discard of state grown per sample, no bulk copy of a partially consumed window into carried state, output commitments are paid for by an input advance or a state change, output sized by an input window consumes from it, what is written through slice() is committed, and a window processed in frames commits whole frames only. Other carried-state arithmetic of hand-written blocks is not decided.",
+             "produce(a/c) needs a multiple of c), written-before-committed, counted consume, moved-out state restored, advanced copies stored back, fills committed, no per-call limit/discard of state grown per sample, no bulk copy of a partially consumed window into carried state, output commitments are paid for by an input advance or a state change, output sized by an input window consumes from it, what is written through slice() is committed, a window processed in frames commits whole frames only, and no kernel branches on how much lies behind the samples it was asked about. Other carried-state arithmetic of hand-written blocks is not decided.",
         design="§4 C08", technique="structural rules on macro-generated MIR over a generated program family"),
     "C12": dict(
         text="Partial: the stream stores only tags of committed samples and consume(0) removes none (central contract), and on "
@@ -60,7 +60,7 @@ CHECKS = {
         design="§4 C09", technique="type facts + effect-avoiding path search + guard/verdict agreement on MIR"),
     "C02": dict(
         text="Structural necessary conditions only: who-may-write on the stream's tag map (only commit adds, only consume "
-             "removes, the read window mutates nothing), commit stores a tag only behind tag.pos() < n and under a key reduced modulo the capacity, removal sits behind n != 0, the read window uses only stable sorts, and read_buf takes the state lock exactly once (window bounds and tag list are one snapshot). The modular "
+             "removes, the read window mutates nothing), commit stores a tag only behind tag.pos() < n and under a key reduced modulo the capacity, removal sits behind n != 0, the read window uses only stable sorts, read_buf takes the state lock exactly once (window bounds and tag list are one snapshot), the ring size is counted in samples (the mapping's byte length is used only where it is divided by the element size) and no wrapping_* result is reduced modulo the capacity. The modular "
              "range arithmetic of removal/re-basing (incl. consume(0)) is a value property and is not decided.",
         design="§4 C02", technique="who-may-call rule + guard dominance on MIR"),
     "C16": dict(
@@ -105,7 +105,7 @@ CHECKS = {
     "C07": dict(
         text="Static error-discipline and cancellation analysis of both runners: no block error is unwrapped, Err of "
              "work()/joined threads flows to run()'s return value, every work() cycle polls the cancel token with an "
-             "exiting true edge, all threads joined on all paths; a recorded failure survives the join loop and nothing that can panic runs before it is returned; a failing block thread cancels the token itself.",
+             "exiting true edge, all threads joined on all paths; a recorded failure survives the join loop and nothing that can panic runs before it is returned; a failing block thread cancels the token itself; no division in runner code by a count that can be zero.",
         design="§4 C07", technique="type-driven call-site rule + taint-to-return + cycle/poll analysis on MIR"),
 }
 
